@@ -39,6 +39,7 @@ def bodyOpOfJson (j : Json) : Except String BodyOp := do
   | "add" => pure (.add (← jnats j "types") (← jstr j "name") (← jnat j "v"))
   | "addf" => pure (.addFactory (← jnats j "types") (← jstr j "name") (← jnat j "fid"))
   | "getnw" => pure (.getNowait (← jnat j "ty") (← jstr j "name") (← jbool j "opt"))
+  | "get" => pure (.get (← jnat j "ty") (← jstr j "name") (← jbool j "opt"))
   | "current" => pure .current
   | o => throw s!"bad body op {o}"
 
